@@ -12,7 +12,11 @@ From Coq Require Import NArith ZArith List Bool Permutation.
 From Blue Require Import Cursor.Iface Cursor.Ref Cursor.Lazy Cursor.Bounds Cursor.Pruning Cursor.Concat
   Cursor.Merging Cursor.Spec Cursor.Compose Cursor.Proofs_Order Cursor.Proofs_Ref Cursor.Proofs_Lazy
   Cursor.Proofs_Bounds Cursor.Proofs_Concat Cursor.Proofs_Pruning Cursor.Proofs_Heap
-  Cursor.Proofs_Merging Cursor.Proofs_Spec Cursor.Proofs_Compose.
+  Cursor.Proofs_Merging Cursor.Proofs_Spec Cursor.Proofs_Compose
+  Cursor.Fallible Cursor.FBounds Cursor.FPruning Cursor.FConcat Cursor.FMerging Cursor.FLazy Cursor.FCompose
+  Cursor.Proofs_Fallible Cursor.Proofs_FBounds Cursor.Proofs_FPruning Cursor.Proofs_FConcat Cursor.Proofs_FMerging
+  Cursor.Proofs_FLazy Cursor.Proofs_Recover Cursor.Proofs_ConcatRec Cursor.Proofs_FCompose Cursor.Proofs_FTree
+  Cursor.Nestings Cursor.Proofs_Nestings.
 Import ListNotations.
 Local Open Scope Z_scope.
 
@@ -98,6 +102,151 @@ Theorem C11_heap_fuel_sufficient : forall A (less : A -> A -> bool) n1 n2 l j,
   (length l <= n1 + j)%nat -> (length l <= n2 + j)%nat ->
   percolate_down less n1 l j = percolate_down less n2 l j.
 Proof. exact @percolate_fuel. Qed.
+
+(* ======================================================================================
+   Storage errors: children whose calls may return Err (Cursor/Fallible.v and F*.v transcribe
+   every `?` of the five Rust files: where each combinator returns and what it leaves behind).
+
+   `twin fc cq q m`: the fallible cursor fc has the total cursor cq as its twin: as long as a call
+   does not return Err it IS cq's call (q forgets the error bookkeeping), and every call consumes
+   at most one scheduled failure (m counts the pending ones), exactly when it returns Err - no
+   swallowed error, no invented one, and the call stops at the first Err. *)
+
+(* the source of errors: a cursor with a schedule of failing calls is the twin of the cursor *)
+Theorem C11_errors_leaf : forall S (c : cursor S) junk,
+  twin (failing c junk) c lf_st (fun x => pending (lf_sched x)).
+Proof. exact @failing_twin. Qed.
+
+(* each combinator over fallible children is the twin of the same combinator over their twins *)
+Theorem C11_errors_twin_merging : forall S Sq (fc : fcursor S) (cq : cursor Sq) q m,
+  twin fc cq q m -> twin (fmerging fc) (merging cq) (qm q) (mm m).
+Proof. exact @fmerging_twin. Qed.
+Theorem C11_errors_twin_concat : forall S Sq (fc : fcursor S) (cq : cursor Sq) q m,
+  twin fc cq q m -> twin (fconcat fc) (concat_cursor cq) (qk q) (mk_ m).
+Proof. exact @fconcat_twin. Qed.
+Theorem C11_errors_twin_bounds : forall S Sq (fc : fcursor S) (cq : cursor Sq) q m,
+  twin fc cq q m -> forall fuel lo hi, twin (fbounds fc fuel lo hi) (bounds cq fuel lo hi) (qb q) (mb m).
+Proof. exact @fbounds_twin. Qed.
+Theorem C11_errors_twin_pruning : forall S Sq (fc : fcursor S) (cq : cursor Sq) q m,
+  twin fc cq q m -> forall fuel t, twin (fpruning fc fuel t) (pruning cq fuel t) (qp q) (mp m).
+Proof. exact @fpruning_twin. Qed.
+(* lazy: the opens fail on schedule; the opened cursor itself consumes no failures (m = 0) *)
+Theorem C11_errors_twin_lazy : forall S Sq (fc : fcursor S) (cq : cursor Sq) q m,
+  twin fc cq q m -> (forall s, m s = 0%nat) -> forall mk, twin (flazy fc mk) (lazy cq (q mk)) (ql q) ml.
+Proof. exact @flazy_twin. Qed.
+
+(* recovery: `krec c x l` = x's own seek / seek_to_first / seek_to_last make it a reference cursor
+   over l.  From ANY state (whatever an earlier Err left behind) whose children recover, each
+   combinator recovers: its absolute calls make it a reference cursor over its specification. *)
+Theorem C11_recover_merging : forall S (c : cursor S) L tabs st,
+  sorted L -> Permutation (concat tabs) L -> Forall sorted tabs ->
+  Forall2 (fun s li => krec c s li) (m_kids st) tabs -> krec (merging c) st L.
+Proof. exact @merging_krec. Qed.
+Theorem C11_recover_concat : forall S (c : cursor S) ls st,
+  sorted (concat ls) -> k_fail st = None -> (k_pos st < length ls)%nat ->
+  Forall2 (fun s li => krec c s li) (k_kids st) ls -> krec (concat_cursor c) st (concat_spec ls).
+Proof. exact @concat_krec. Qed.
+Theorem C11_recover_bounds : forall S (c : cursor S) fuel lo hi l cur pos,
+  sorted l -> Z.of_nat fuel >= len l + 2 -> krec c cur l ->
+  krec (bounds c fuel lo hi) (mkB cur pos None) (bounds_spec lo hi l).
+Proof. exact @bounds_krec. Qed.
+Theorem C11_recover_pruning : forall S (c : cursor S) fuel t l cur sk,
+  sorted l -> Z.of_nat fuel >= len l + 2 -> krec c cur l ->
+  krec (pruning c fuel t) (mkP cur sk None) (prune_spec t l).
+Proof. exact @pruning_krec. Qed.
+Theorem C11_recover_lazy : forall S (c : cursor S) mk l i0 p,
+  refines c mk l i0 -> (forall cur, p = LInst cur -> krec c cur l) -> krec (lazy c mk) p (lazy_spec l).
+Proof. exact @lazy_krec. Qed.
+
+(* a concatenating cursor does not even need its children to BE reference cursors at the start:
+   it is enough that they recover (it re-positions a child absolutely whenever it moves onto it) *)
+Theorem C11_concat_children_only_need_recover : forall S (c : cursor S) ls kids,
+  sorted (concat ls) -> ls <> [] -> Forall2 (fun s li => krec c s li) kids ls ->
+  refines (concat_cursor c) (k_new c kids) (concat_spec ls) (-1).
+Proof. exact @concat_refines_rec. Qed.
+
+(* For EVERY well-formed nesting over leaves that fail on any schedules (FCompose.frun_model is what
+   the correspondence check runs against the real code with a failing cursor at every leaf), for
+   every program, once the constructors have succeeded:
+   (a) every Err the run reports is exactly one scheduled failure consumed, and vice versa; *)
+Theorem C11_errors_reported : forall e u prog, fubuild (fdepth e) (fsize e + 2) e = Some u ->
+  (mu (fafter (fucur (fdepth e)) prog u) + count_err (frun (fucur (fdepth e)) prog u) = mu u)%nat.
+Proof. intros e u prog _. apply tree_accounting. Qed.
+
+(* (b) everything returned before the first Err is the reference cursor's; *)
+Theorem C11_errors_before_first : forall e u prog, wf (erase e) ->
+  fubuild (fdepth e) (fsize e + 2) e = Some u ->
+  fclean (fucur (fdepth e)) (spec_of (erase e)) prog u (-1).
+Proof. intros e u prog Hw Hb. now apply tree_clean. Qed.
+
+(* (c) and after an Err: every seek / seek_to_first / seek_to_last that succeeds, and everything after
+   it up to the next Err, is the reference cursor's again (fmatchh, Fallible.v: next / prev between
+   an Err and the next successful absolute call are the only unspecified observations; claims
+   about later calls are made while no node of the model is in its own failure state, which the
+   correspondence check reports if it ever happens).  This is the `_outside_known` theorem of the
+   known class `dirty-relative`. *)
+Theorem C11_after_error_outside_known : forall e u prog, wf (erase e) ->
+  fubuild (fdepth e) (fsize e + 2) e = Some u ->
+  fmatchh (fucur (fdepth e)) healthy (spec_of (erase e)) prog u (Some (-1)).
+Proof. intros e u prog Hw Hb. now apply tree_recovers. Qed.
+
+(* ... and those observations really are unspecified: "a call that returned Err was a no-op" is
+   false.  Two tables [a,c] and [b,d] merged; the 4th call on the second (its `next` inside the
+   direction switch of MergingCursor::next, after the first child has already moved) returns
+   Err; the retried next moves the first child again: the run yields b, d - c is skipped. *)
+Definition exf_e (k : N) : entry := mkE [k] 1 (Some [k]).
+Definition exf_expr : fexpr :=
+  FEMerge [FETable [exf_e 97; exf_e 99] []; FETable [exf_e 98; exf_e 100] [false; false; false; true]].
+Definition exf_prog : list op := [ONext; ONext; OPrev; ONext; ONext; ONext; OFirst; ONext].
+
+Theorem C11_next_after_error_refuted :
+  wf (erase exf_expr) /\
+  map (fun o => match o with FKV kv => kv | _ => None end) (tl (frun_model exf_expr exf_prog)) <>
+  fnoop_ref (spec_of (erase exf_expr)) exf_prog (tl (frun_model exf_expr exf_prog)) (-1).
+Proof.
+  split.
+  - cbn [wf erase exf_expr map]. repeat split; try (apply sorted_of_bool; vm_compute; reflexivity).
+    apply distinct_of_bool. vm_compute. reflexivity.
+  - vm_compute. intros H. discriminate H.
+Qed.
+
+(* ======================================================================================
+   The nestings lsmtk builds (Cursor/Nestings.v).  The range-scan nestings are in the Scan area
+   (Props_C03.v: C03_scan_expr_wf, C03_scan_correct, C03_tree_scan_correct are corollaries of
+   C11_compose); here the cursor over a compaction's inputs, which is also the garbage
+   collector's cursor: MergingCursor::<SstCursor>::new over the input SSTs. *)
+
+(* it is the reference cursor over the sorted union of the inputs, under every program *)
+Theorem C11_compaction_input : forall tabs prog, Forall sorted tabs -> distinct (concat tabs) ->
+  run_model (compaction_input tabs) prog = run (ref (merge_spec tabs)) prog ref_new.
+Proof. exact compaction_input_correct. Qed.
+
+(* perform_compaction's walk (seek_to_first, then next until None) reads exactly the sorted
+   union: the k-th next yields its k-th entry, every entry once, then None *)
+Theorem C11_compaction_walk_reads_sorted_union : forall tabs n, Forall sorted tabs -> distinct (concat tabs) ->
+  map fst (run_model (compaction_input tabs) (compaction_walk n)) =
+  None :: map (fun k => ent (merge_spec tabs) (Z.min (Z.of_nat k - 1) (len (merge_spec tabs)))) (seq 0 (S n)).
+Proof. exact compaction_walk_reads_sorted_union. Qed.
+
+(* the garbage collector's cursor (seek_to_first(); clone(); next()) is that reference cursor at
+   its first entry *)
+Theorem C11_gc_input : forall tabs prog, Forall sorted tabs -> distinct (concat tabs) ->
+  run_model (compaction_input tabs) (gc_input_prefix ++ prog) =
+  run (ref (merge_spec tabs)) (gc_input_prefix ++ prog) ref_new /\
+  skipn 2 (run (ref (merge_spec tabs)) (gc_input_prefix ++ prog) ref_new) =
+  run (ref (merge_spec tabs)) prog (Z.min 0 (len (merge_spec tabs))).
+Proof. exact gc_input_correct. Qed.
+
+(* when reading an input may return Err: what has been read before the first Err is the reference
+   cursor's (a prefix of the sorted union), and every Err is reported *)
+Theorem C11_compaction_input_errors : forall tabs u prog,
+  Forall sorted (map fst tabs) -> distinct (concat (map fst tabs)) ->
+  fubuild (fdepth (compaction_input_failing tabs)) (fsize (compaction_input_failing tabs) + 2)
+          (compaction_input_failing tabs) = Some u ->
+  fclean (fucur (fdepth (compaction_input_failing tabs))) (merge_spec (map fst tabs)) prog u (-1) /\
+  (mu (fafter (fucur (fdepth (compaction_input_failing tabs))) prog u) +
+   count_err (frun (fucur (fdepth (compaction_input_failing tabs))) prog u) = mu u)%nat.
+Proof. exact compaction_input_failing_correct. Qed.
 
 (* ---- non-vacuity: a concrete well-formed nesting (a scan-shaped one: prune over bounds over a
    merge of a concatenation and a table, with tombstones and a key split across tables) and a
